@@ -28,10 +28,19 @@ def _load():
       pass
 
 
-def generate(ctx, gens, selfcheck_reps=3):
+def spot_params(tier):
+  """(positions per definition, driver draws kept per unit, leaf budget of an unfolded formula): one position per definition and per
+  piecewise branch in the quick tier."""
+  return (1, 2, 120) if tier == "quick" else (4, 4, 400)
+
+
+def generate(ctx, gens, selfcheck_reps=3, spot=True):
+  """Regenerate coq/Gen/<gen>.v for every gen; returns the evidence list: `<unit>:selfcheck-<status>` (dual rendering, IR level) and
+  `<unit>:spotcheck-ok(<n>)` (n positions at which the Coq kernel checked the EMITTED definition against the running code;
+  `Phi-by-integral` marks definitions containing the normal CDF, whose Riemann integral Interval encloses) or `:spotcheck-n/a(<why>)`."""
   if not REGISTRY:
     _load()
-  done = []
+  done, spot_in = [], {}
   for gen in gens:
     units_fn, extra = REGISTRY[gen]
     core.EXTRA_SOURCES[:] = extra
@@ -44,5 +53,37 @@ def generate(ctx, gens, selfcheck_reps=3):
       raise C.TieBroken(f"py2v self-check could not run the implementation for {gen}: {type(e).__name__}: {e}")
     for g, text in files.items():
       C.write_if_changed(os.path.join(C.COQ, "Gen", g + ".v"), text)
+    spot_in[gen] = (results, files[gen])
     done += [r["unit"] + (":selfcheck-" + r["status"]) for r in report]
+  if spot:
+    done += spotcheck_gens(ctx, spot_in)
   return done
+
+
+def spotcheck_gens(ctx, spot_in):
+  """Kernel-checked spot checks of the emitted definitions (spotcheck.py); the generated modules are built first (they are what the
+  case files - and the theorems - import)."""
+  from . import spotcheck
+  ok, log = C.coq_make([f"Gen/{g}.vo" for g in spot_in])
+  if not ok:
+    raise C.TieBroken(f"py2v: the generated files do not compile: {log[-1200:]}")
+  n, draws, leaves = spot_params(ctx.tier)
+  try:
+    report, failures, info = spotcheck.run(C.COQ, spot_in, n, draws, random.Random(f"py2v-spot:{ctx.seed}"), leaves=leaves,
+                                           jobs=int(os.environ.get("PY2V_SPOT_JOBS", "6")), forbidden=C.FORBIDDEN)
+  except TranslationError as e:
+    raise C.TieBroken(f"py2v: {e}")
+  except (AttributeError, TypeError, ValueError, AssertionError, IndexError, KeyError, ZeroDivisionError, OverflowError) as e:
+    raise C.TieBroken(f"py2v spot check could not run the implementation: {type(e).__name__}: {e}")
+  if failures:
+    raise C.TieBroken("py2v: " + " || ".join(failures))
+  if hasattr(ctx, "notes"):
+    ctx.notes.append(f"py2v spot check: {info['cases']} kernel-checked positions in {info['wall']:.1f} s ({info['skipped']} ill-conditioned positions skipped)")
+    ctx.notes += info["notes"]
+  out = []
+  for r in report:
+    if r["status"] == "ok":
+      out.append(f"{r['unit']}:spotcheck-ok({r['cases']}" + (",Phi-by-integral" if r.get("phi") else "") + ")")
+    else:
+      out.append(f"{r['unit']}:spotcheck-n/a({r.get('reason', '?')})")
+  return out
